@@ -128,11 +128,13 @@ def cache_counters(sim):
     )
 
 
-def run_ref(trace, dc=None, ic=None, cap=REF_CAP, prog=None, hook=None):
+def run_ref(trace, dc=None, ic=None, cap=None, prog=None, hook=None):
     """Single-cycle mode: the sequential reference.  Returns
     {"recs": [...], "sim", "exc", "capped"} with one record per executed instruction:
     (addr, index, redirect, is_ecall, exited, rd, rdval, out_len)."""
     prog_ir = trace["prog"] if prog is None else prog
+    if cap is None:
+        cap = trace["cfg"].get("cap", REF_CAP)
     sim = make_sim(trace, "single_stage_pipeline", True, dc, ic, prog)
     decoy = Decoy(trace, True, dc, ic, prog)
     st = sim.state
